@@ -87,11 +87,20 @@ def cfg_numeric_arg_fields(ir):
     stmts_effs deliberately skips; control-typed fields (index/size/bool/stride) passed as
     arguments are ordinary reads and are not part of that mechanism"""
     out = set()
-    for _, s in irutil.all_stmts(ir):
-        if isinstance(s, LoopIR.Call):
-            for fa, a in zip(s.f.args, s.args):
-                if fa.type.is_numeric() and isinstance(a, LoopIR.ReadConfig):
-                    out.add(f"{a.config.name()}.{a.field}")
+    seen = set()
+
+    def walk(p):
+        if id(p) in seen:
+            return
+        seen.add(id(p))
+        for _, s in irutil.all_stmts(p):
+            if isinstance(s, LoopIR.Call):
+                for fa, a in zip(s.f.args, s.args):
+                    if fa.type.is_numeric() and isinstance(a, LoopIR.ReadConfig):
+                        out.add(f"{a.config.name()}.{a.field}")
+                walk(s.f)  # the call may sit inside a callee (extract_subproc, user sub-procedures)
+
+    walk(ir)
     return sorted(out)
 
 
